@@ -265,6 +265,33 @@ for cell in [(10, 12, 15, 90, 90, 90), (30, 30, 50, 90, 90, 120), (30.5, 40.25, 
                     lambda cell=cell, models=models, flavour=flavour: box_case(cell, models, flavour))
 
 
+def inscode_bond_case(which, flavour):
+    """struct_conn bond partners are identified by chain, residue id, INSERTION CODE, residue name and atom name:
+    a bond to residue 52A comes back on 52A although residue 52 has the same name and atoms"""
+    rows = [("SER", 52, "", "N", "N", False), ("SER", 52, "", "OG", "O", False), ("SER", 52, "A", "N", "N", False), ("SER", 52, "A", "OG", "O", False),
+            ("LIG", 301, "", "C1", "C", True)]
+    n = len(rows)
+    a = struc.AtomArray(n)
+    a.chain_id[:] = "A"
+    a.res_name[:] = [r[0] for r in rows]
+    a.res_id[:] = [r[1] for r in rows]
+    a.ins_code[:] = [r[2] for r in rows]
+    a.atom_name[:] = [r[3] for r in rows]
+    a.element[:] = [r[4] for r in rows]
+    a.hetero[:] = [r[5] for r in rows]
+    a.coord = np.arange(n * 3, dtype=np.float32).reshape(n, 3)
+    partner = 3 if which == "52A" else 1
+    a.bonds = struc.BondList(n, np.array([(partner, 4, 1)]))
+    b, g = cycle(a, flavour, ())
+    return same(a, b, ())
+
+
+for which in ("52", "52A"):
+    for flavour in ("cif", "bcif", "bcif-compressed"):
+        R.check("write-read cycle returns an equal structure", f"{flavour} bond partner told apart by its insertion code", {"bonded residue": which, "flavour": flavour},
+                lambda which=which, flavour=flavour: inscode_bond_case(which, flavour))
+
+
 def snapshot_case(cfg, flavour):
     """set_structure() takes a snapshot: changing the caller's arrays in place afterwards must not change the file"""
     a = build(*cfg)
